@@ -26,7 +26,8 @@ Definition eng_step_ok (cfg : config) (m : mstate) (s : side) (ts : list path) (
   /\ (origin cfg = Some s -> view (root_of cfg s) (tree_of m s) ~~ view (root_of cfg s) (tree_of m' s))  (* C03 *)
   /\ quiet m = false                                                              (* C03: no echo after quiet *)
   /\ (cov_every_step cfg = true -> all_live (cov m) (tL m') (tR m') = true)       (* C02, step level *)
-  /\ spec m' = spec m /\ cov m' = cov m /\ steps m' = steps m /\ quiet m' = quiet m.
+  /\ spec m' = spec m /\ cov m' = cov m /\ steps m' = steps m /\ quiet m' = quiet m
+  /\ (forall t, In t ts -> has_declined cfg t = false).                            (* C12: declined paths left alone *)
 
 Definition quiet_ok (cfg : config) (m m' : mstate) : Prop :=
   tL m ~~ tL m' /\ tR m ~~ tR m'
@@ -73,6 +74,7 @@ Proof.
         try (intros Hc; congruence).
   - (* engine action *)
     destruct (negb (forallb _ ts)) eqn:G1; [discriminate|]. apply negb_true_false in G1.
+    destruct (existsb (has_declined cfg) ts) eqn:G1d; [discriminate|].
     destruct (negb (same_tree (outside (rootL cfg) (tL m)) _ && _)) eqn:G2; [discriminate|].
     apply negb_true_false in G2. apply andb_true_iff in G2 as [G2a G2b].
     destruct (negb (if s then _ else _)) eqn:G3; [discriminate|]. apply negb_true_false in G3.
@@ -87,6 +89,9 @@ Proof.
     + intros Ho. rewrite Ho in G4. unfold side_eqb in G4. rewrite eqb_reflx in G4. simpl in G4.
       apply negb_true_false in G4. destruct s; simpl in *; exact G4.
     + intros Hc. rewrite Hc in G6. simpl in G6. apply negb_true_false in G6. exact G6.
+    + intros t Ht. destruct (has_declined cfg t) eqn:Hd; [|reflexivity].
+      assert (He : existsb (has_declined cfg) ts = true) by (apply existsb_exists; exists t; split; assumption).
+      congruence.
   - (* step marker *)
     destruct (negb (same_tree (tL m) (o_L x) && same_tree (tR m) (o_R x))) eqn:G1; [discriminate|].
     apply negb_true_false in G1. apply andb_true_iff in G1 as [Ga Gb].
@@ -213,6 +218,24 @@ Proof.
   destruct (run_of_forall cfg (step_ok cfg) (fun _ _ _ H => H) _ _ _ Hacc pre x post Heq) as [ma [mb [Ha [Hb _]]]].
   destruct Hb as [[HoL HoR] Hb]. rewrite He in Hb. destruct Hb as (Hc & H1 & H2 & _).
   split; [exact Hc|]. exists ma. rewrite <- HoL, <- HoR. auto.
+Qed.
+
+(* C12, trace level: no engine action of an accepted run addresses a path with a component that the
+   application's translate function declines (the names listed in [declined cfg]) *)
+Theorem engine_declined_left_alone cfg l r tr m' :
+  accept cfg l r tr = inl m' ->
+  forall pre x post s ts, tr = pre ++ x :: post -> o_ev x = EEng s ts ->
+    forall t n, In t ts -> In n t -> ~ In n (declined cfg).
+Proof.
+  intros Hacc pre x post s ts Heq He t n Ht Hn Hd. apply accept_sound in Hacc.
+  destruct (run_of_forall cfg (step_ok cfg) (fun _ _ _ H => H) _ _ _ Hacc pre x post Heq) as [ma [mb [_ [Hb _]]]].
+  destruct Hb as [_ Hb]. rewrite He in Hb.
+  destruct Hb as (_ & _ & _ & _ & _ & _ & _ & _ & _ & _ & _ & Hdec).
+  specialize (Hdec t Ht). unfold has_declined in Hdec.
+  assert (Hx : existsb (fun n0 => existsb (N.eqb n0) (declined cfg)) t = true).
+  { apply existsb_exists. exists n. split; [exact Hn|].
+    apply existsb_exists. exists n. split; [exact Hd|apply N.eqb_refl]. }
+  congruence.
 Qed.
 
 (* C03, trace level: in a one-sided run no engine action changes the origin side's view, and no
